@@ -33,7 +33,7 @@ ASSUMPTIONS = [
     "'direct_pl' in operations_by_kind",
 ]
 PROBES = ["cost_pos_and_trade", "H2", "H3", "listed_hedge", "first_cost_disabled", "cost_none", "payoff_none",
-          "negative_price", "shock_before_pl", "multi_primary", "float64", "exact_repeat_position", "sign_flip", "compute_pnl", "pl_under_grad", "payoff_with_clauses", "cost_changed_between_calls"]
+          "negative_price", "shock_before_pl", "multi_primary", "float64", "exact_repeat_position", "sign_flip", "compute_pnl", "pl_under_grad", "payoff_with_clauses", "cost_changed_between_calls", "price_scale_not_one"]
 
 
 def generate(rng):
@@ -82,6 +82,10 @@ def generate(rng):
 
     def sim_all():
         ops.append({"op": "simulate", "target": "d0", "n_paths": n, "torch_seed": rng.seed31()})
+        if len(prims) == 1 and rng.chance(0.25):
+            # a market quoted around 100 (or pennies) instead of 1
+            s0 = rng.choice([100.0, 25.0, 4.0])
+            ops[-1]["init_state"] = {"HestonStock": [s0, 0.04], "RoughBergomiStock": [s0, 0.04]}.get(p0["kind"], [s0])
         if len(prims) > 1:
             ops.append({"op": "simulate", "target": "p1", "n_paths": n, "torch_seed": rng.seed31(), "time_horizon": d["params"]["maturity"]})
 
@@ -251,7 +255,9 @@ def _execute(program, stats, hist):
             try:
                 tgt = world.instrument(op["target"])
                 if op["target"] in world.derivatives:
-                    tgt.simulate(n_paths=op["n_paths"])
+                    tgt.simulate(n_paths=op["n_paths"], init_state=tuple(op["init_state"]) if op.get("init_state") else None)
+                    if op.get("init_state"):
+                        stats.probe("price_scale_not_one")
                     stats.market_years += op["n_paths"] * tgt.maturity
                 else:
                     tgt.simulate(n_paths=op["n_paths"], time_horizon=op["time_horizon"])
